@@ -80,6 +80,7 @@ func TestVerifC02(t *testing.T) {
 		return
 	}
 	rng := hk.NewRNG(hk.Seed(), "c02")
+	hostilePrelude(hk.NewRNG(hk.Seed(), "prelude"))
 	keys := specialKeys()
 	for i := 0; i < hk.N(6, 30); i++ {
 		keys = append(keys, randScalar(rng))
